@@ -27,19 +27,33 @@
 (* CheckThenAct = FALSE: intended design -- Save re-tests the limits in    *)
 (*   the critical section that inserts; then Limits is an invariant.       *)
 (*                                                                         *)
+(* Address forms.  The controller never sees an IP: it sees the TEXT of a   *)
+(* remote address (net.Addr.String(), "host:port" for IPv4 but             *)
+(* "[host]:port" for IPv6), keys its records by that text, gets the IP back *)
+(* with net.SplitHostPort (no brackets) and builds the announced listen    *)
+(* address by string concatenation.  The textual realisation of the        *)
+(* abstract remote IPs / ports is a model dimension: the variable plan is  *)
+(* chosen in Init from Plans (IPv4, IPv6 loopback/global, hosts and ports  *)
+(* that are textual prefixes of each other, both families mixed) and every *)
+(* action runs over the texts of that plan; the record sets inb, outb, lsn *)
+(* and cing hold these texts.                                              *)
+(*                                                                         *)
 (* Abstractions: the deferred removeConnecting of Connect is merged into   *)
 (* the step that ends the attempt; self-connection detection (OwnAddress)  *)
 (* and the reserved-peer filter are not modelled (always pass).            *)
 (***************************************************************************)
-EXTENDS Naturals, FiniteSets, TLC
+EXTENDS Naturals, FiniteSets, Sequences, TLC
 
 CONSTANTS Conns,        \* connection attempts (ids)
           Dir,          \* Conns -> {"in","out"}
-          IpOf,         \* Conns -> remote IP
-          AddrOf,       \* Conns -> remote address "ip:port" (inbound: ephemeral port; outbound: dialled address)
-          ListenOf,     \* Conns -> listen address announced by the remote peer (ip : version.SyncPort)
+          IpOf,         \* Conns -> remote IP (abstract)
+          PortOf,       \* Conns -> remote port id (inbound: ephemeral port; outbound: dialled port)
+          LPortOf,      \* Conns -> id of the listen port announced by the remote peer (version.SyncPort)
           KidOf,        \* Conns -> peer id of the remote node
-          IpOfAddr,     \* address -> IP (ParseIPAddr)
+          Plans,        \* the address plans (names) the remote addresses range over
+          PlanTab,      \* plan -> [host : IP -> [fam : {"v4","v6"}, host : text], port : port id -> text]
+          ListenAsCoded,\* TRUE: PeerInfo.RemoteListenAddress = host ++ ":" ++ port, no brackets for IPv6 (named deviation
+                        \* from net.JoinHostPort; it only matters for the duplicate-address test, not for the limits)
           MaxIn, MaxPerIp, MaxOut,
           CheckThenAct, SplitCheck,
           TrackSnap     \* TRUE: maintain the ghost variable snap (finer state identity for the transition cover)
@@ -50,24 +64,45 @@ VARIABLES pc,       \* Conns -> program counter of the attempt
           lsn,      \* inboundListenAddress
           cing,     \* connecting
           peers,    \* peer id -> connection currently recorded in the peers map, or "none"
+          plan,     \* the address plan of this behaviour (chosen in Init, never changes)
           snap,     \* ghost: what the attempt saw when it passed its checks (size of its bound, inbound count of its IP).
                     \* It does not influence any action; it makes the histories that differ in what was observed at
                     \* check time different states, so that the transition cover replays each of them (an
                     \* implementation that caches a check-time observation until Save is exercised on all of them).
           act       \* history: last action (excluded from the VIEW)
 
-vars == <<pc, inb, outb, lsn, cing, peers, snap, act>>
-view == <<pc, inb, outb, lsn, cing, peers, snap>>
+vars == <<pc, inb, outb, lsn, cing, peers, plan, snap, act>>
+view == <<pc, inb, outb, lsn, cing, peers, plan, snap>>
 
 Kids == {KidOf[c] : c \in Conns}
 IPs == {IpOf[c] : c \in Conns}
 IsIn(c) == Dir[c] = "in"
+
+(****************************** address texts ******************************)
+\* net.JoinHostPort / TCPAddr.String(): what conn.RemoteAddr().String() returns and what Connect is called with
+JoinHostPort(h, p) == IF h.fam = "v6" THEN "[" \o h.host \o "]:" \o p ELSE h.host \o ":" \o p
+\* PeerInfo.RemoteListenAddress (recorded in inboundListenAddress by savePeer)
+ListenText(h, p) == IF ListenAsCoded THEN h.host \o ":" \o p ELSE JoinHostPort(h, p)
+AddrTab == [p \in Plans |-> [c \in Conns |-> JoinHostPort(PlanTab[p].host[IpOf[c]], PlanTab[p].port[PortOf[c]])]]
+LsnTab == [p \in Plans |-> [c \in Conns |-> ListenText(PlanTab[p].host[IpOf[c]], PlanTab[p].port[LPortOf[c]])]]
+\* common.ParseIPAddr = net.SplitHostPort: the inverse of JoinHostPort on the host part (library contract)
+IpTab == [p \in Plans |-> [a \in {AddrTab[p][c] : c \in Conns} |->
+             CHOOSE ip \in IPs : \E c \in Conns : AddrTab[p][c] = a /\ IpOf[c] = ip]]
+\* the plans are proper: two remote addresses have the same text iff they are the same ip and port, and two IPs the same host text iff equal
+ASSUME PlanOK == \A p \in Plans :
+                   /\ \A c, d \in Conns : (AddrTab[p][c] = AddrTab[p][d]) <=> (IpOf[c] = IpOf[d] /\ PortOf[c] = PortOf[d])
+                   /\ \A x, y \in IPs : (PlanTab[p].host[x].host = PlanTab[p].host[y].host) <=> (x = y)
+AddrOf(c) == AddrTab[plan][c]
+ListenOf(c) == LsnTab[plan][c]
+HostOf(c) == PlanTab[plan].host[IpOf[c]]
+IpOfAddr(a) == IpTab[plan][a]
 
 PCs == {"idle", "c1", "c2", "c3", "checked", "hs", "saved", "closed", "rejected"}
 
 Init == /\ pc = [c \in Conns |-> "idle"]
         /\ inb = {} /\ outb = {} /\ lsn = {} /\ cing = {}
         /\ peers = [k \in Kids |-> "none"]
+        /\ plan \in Plans
         /\ snap = [c \in Conns |-> [n |-> 0, ip |-> 0]]
         /\ act = [name |-> "Init", c |-> "", res |-> ""]
 
@@ -75,14 +110,14 @@ Did(n, c, r) == act' = [name |-> n, c |-> c, res |-> r]
 Go(c, to) == pc' = [pc EXCEPT ![c] = to]
 
 (************************ the individual tests (as coded) ******************)
-AddrFree(c) == AddrOf[c] \notin inb /\ AddrOf[c] \notin outb /\ AddrOf[c] \notin lsn      \* !hasBoundAddr
+AddrFree(c) == AddrOf(c) \notin inb /\ AddrOf(c) \notin outb /\ AddrOf(c) \notin lsn      \* !hasBoundAddr
 NotFull(c) == IF IsIn(c) THEN Cardinality(inb) < MaxIn ELSE Cardinality(outb) < MaxOut    \* !isBoundFull
-FromIp(ip) == Cardinality({a \in inb : IpOfAddr[a] = ip})                                   \* getInboundCountWithIp
+FromIp(ip) == Cardinality({a \in inb : IpOfAddr(a) = ip})                                   \* getInboundCountWithIp
 IpOk(c) == IsIn(c) => FromIp(IpOf[c]) < MaxPerIp
 KidOk(c) == LET o == peers[KidOf[c]] IN o = "none" \/ IpOf[o] = IpOf[c]                    \* checkPeerIdAndIP
 
 \* leaving the attempt: Connect's deferred removeConnecting
-Unconnecting(c) == IF IsIn(c) THEN cing ELSE cing \ {AddrOf[c]}
+Unconnecting(c) == IF IsIn(c) THEN cing ELSE cing \ {AddrOf(c)}
 
 Reject(n, c, r) == /\ Go(c, "rejected") /\ Did(n, c, r)
                    /\ UNCHANGED <<inb, outb, lsn, peers, snap>>
@@ -95,7 +130,7 @@ IpSeen(c) == IF IsIn(c) THEN FromIp(IpOf[c]) ELSE 0
 (* no other inbound attempt with its remote address is between its check and its Save.  A recorded (dead)        *)
 (* connection with that address may exist: the controller must then refuse the newcomer (AddrFree), because the  *)
 (* inbound record is keyed by the remote address and removePeer of the old connection would delete the shared key*)
-MayStart(c) == IsIn(c) => \A d \in Conns \ {c} : (IsIn(d) /\ AddrOf[d] = AddrOf[c]) => pc[d] \in {"idle", "saved", "closed", "rejected"}
+MayStart(c) == IsIn(c) => \A d \in Conns \ {c} : (IsIn(d) /\ AddrOf(d) = AddrOf(c)) => pc[d] \in {"idle", "saved", "closed", "rejected"}
 
 (*************************** fine-grained steps ****************************)
 CheckAddr(c) == /\ SplitCheck /\ pc[c] = "idle" /\ MayStart(c)
@@ -116,9 +151,9 @@ CheckIp(c) == /\ SplitCheck /\ pc[c] = "c2" /\ IsIn(c)
               /\ UNCHANGED cing
 
 TryConnecting(c) == /\ SplitCheck /\ pc[c] = "c2" /\ ~IsIn(c)
-                    /\ IF AddrOf[c] \notin cing
+                    /\ IF AddrOf(c) \notin cing
                        THEN /\ Go(c, "checked") /\ Did("TryConnecting", c, "checked")
-                            /\ cing' = cing \cup {AddrOf[c]} /\ UNCHANGED <<inb, outb, lsn, peers, snap>>
+                            /\ cing' = cing \cup {AddrOf(c)} /\ UNCHANGED <<inb, outb, lsn, peers, snap>>
                        ELSE Reject("TryConnecting", c, "rej-connecting") /\ UNCHANGED cing
 
 AfterCheck(c) == /\ SplitCheck /\ pc[c] = "checked"
@@ -133,8 +168,8 @@ Insert(n, c) ==
     IF ~CheckThenAct /\ ~RoomAtSave(c)
     THEN Reject(n, c, "rej-limit") /\ cing' = Unconnecting(c)
     ELSE /\ Go(c, "saved") /\ Did(n, c, "saved")
-         /\ IF IsIn(c) THEN inb' = inb \cup {AddrOf[c]} /\ lsn' = lsn \cup {ListenOf[c]} /\ UNCHANGED outb
-                       ELSE outb' = outb \cup {AddrOf[c]} /\ UNCHANGED <<inb, lsn>>
+         /\ IF IsIn(c) THEN inb' = inb \cup {AddrOf(c)} /\ lsn' = lsn \cup {ListenOf(c)} /\ UNCHANGED outb
+                       ELSE outb' = outb \cup {AddrOf(c)} /\ UNCHANGED <<inb, lsn>>
          /\ peers' = [peers EXCEPT ![KidOf[c]] = c]
          /\ cing' = Unconnecting(c)
          /\ UNCHANGED snap
@@ -147,9 +182,9 @@ Check(c) == /\ ~SplitCheck /\ pc[c] = "idle" /\ MayStart(c)
             /\ IF ~AddrFree(c) THEN Reject("Check", c, "rej-addr") /\ UNCHANGED cing
                ELSE IF ~NotFull(c) THEN Reject("Check", c, "rej-full") /\ UNCHANGED cing
                ELSE IF ~IpOk(c) THEN Reject("Check", c, "rej-ip") /\ UNCHANGED cing
-               ELSE IF ~IsIn(c) /\ AddrOf[c] \in cing THEN Reject("Check", c, "rej-connecting") /\ UNCHANGED cing
+               ELSE IF ~IsIn(c) /\ AddrOf(c) \in cing THEN Reject("Check", c, "rej-connecting") /\ UNCHANGED cing
                ELSE /\ Go(c, "checked") /\ Did("Check", c, "checked")
-                    /\ cing' = IF IsIn(c) THEN cing ELSE cing \cup {AddrOf[c]}
+                    /\ cing' = IF IsIn(c) THEN cing ELSE cing \cup {AddrOf(c)}
                     /\ snap' = IF TrackSnap THEN [snap EXCEPT ![c] = [n |-> SizeSeen(c), ip |-> IpSeen(c)]] ELSE snap
                     /\ UNCHANGED <<inb, outb, lsn, peers>>
 
@@ -166,18 +201,20 @@ HandshakeFail(c) == /\ pc[c] \in {"checked"}
 \* Conn.Close -> removePeer
 Close(c) == /\ pc[c] = "saved"
             /\ Go(c, "closed") /\ Did("Close", c, "closed")
-            /\ IF IsIn(c) THEN inb' = inb \ {AddrOf[c]} /\ lsn' = lsn \ {ListenOf[c]} /\ UNCHANGED outb
-                          ELSE outb' = outb \ {AddrOf[c]} /\ UNCHANGED <<inb, lsn>>
+            /\ IF IsIn(c) THEN inb' = inb \ {AddrOf(c)} /\ lsn' = lsn \ {ListenOf(c)} /\ UNCHANGED outb
+                          ELSE outb' = outb \ {AddrOf(c)} /\ UNCHANGED <<inb, lsn>>
             /\ peers' = IF peers[KidOf[c]] = c THEN [peers EXCEPT ![KidOf[c]] = "none"] ELSE peers
             /\ UNCHANGED <<cing, snap>>
 
-Next == \E c \in Conns : \/ CheckAddr(c) \/ CheckFull(c) \/ CheckIp(c) \/ TryConnecting(c) \/ AfterCheck(c) \/ SaveFine(c)
-                         \/ Check(c) \/ Save(c) \/ HandshakeFail(c) \/ Close(c)
+Next == /\ \E c \in Conns : \/ CheckAddr(c) \/ CheckFull(c) \/ CheckIp(c) \/ TryConnecting(c) \/ AfterCheck(c) \/ SaveFine(c)
+                            \/ Check(c) \/ Save(c) \/ HandshakeFail(c) \/ Close(c)
+        /\ UNCHANGED plan
 
 Spec == Init /\ [][Next]_vars
 
 (******************************* properties ********************************)
 TypeOK == /\ pc \in [Conns -> PCs]
+          /\ plan \in Plans
           /\ peers \in [Kids -> Conns \cup {"none"}]
 
 Est(d) == {c \in Conns : pc[c] = "saved" /\ Dir[c] = d}
@@ -189,14 +226,14 @@ LimOut == Cardinality(Est("out")) <= MaxOut
 Limits == LimIn /\ LimIp /\ LimOut
 
 \* bookkeeping: the address sets are exactly the established connections (remote addresses are distinct)
-Book == /\ inb = {AddrOf[c] : c \in Est("in")}
-        /\ outb = {AddrOf[c] : c \in Est("out")}
-        /\ cing \subseteq {AddrOf[c] : c \in {d \in Conns : ~IsIn(d) /\ pc[d] \in {"checked", "hs"}}}
+Book == /\ inb = {AddrOf(c) : c \in Est("in")}
+        /\ outb = {AddrOf(c) : c \in Est("out")}
+        /\ cing \subseteq {AddrOf(c) : c \in {d \in Conns : ~IsIn(d) /\ pc[d] \in {"checked", "hs"}}}
 
 \* the quantity the limits are enforced on (the size of the record) is the number of live connections: no live
 \* connection is missing from the record (an under-counting record admits more connections than the limit)
 LiveCounted == /\ Cardinality(inb) = Cardinality(Est("in"))
                /\ \A ip \in IPs : FromIp(ip) = Cardinality({c \in Est("in") : IpOf[c] = ip})
 
-State == [pc |-> pc, inb |-> inb, outb |-> outb, lsn |-> lsn, cing |-> cing, peers |-> peers, snap |-> snap]
+State == [plan |-> plan, pc |-> pc, inb |-> inb, outb |-> outb, lsn |-> lsn, cing |-> cing, peers |-> peers, snap |-> snap]
 =============================================================================
